@@ -787,6 +787,15 @@ def _view(I, t, *shape):
             I.ex.oblige("view.sizes_agree", a_ * b_ == to_z3(t.shape[0]))
         e = t.elem
         return ST(tuple(new), lambda i, j: e(to_z3(i) * b_ + to_z3(j)), t.dtype)
+    if len(new) == len(t.shape) + 1 and not any(isinstance(d, int) and d == -1 for d in new):
+        # one dimension split into two adjacent ones (row-major), the others unchanged: out[.., a, b, ..] = t[.., a * B + b, ..]
+        for a_ in range(len(t.shape)):
+            if all(dim_eq(new[i], t.shape[i]) for i in range(a_)) and all(dim_eq(new[i + 1], t.shape[i]) for i in range(a_ + 1, len(t.shape))):
+                A_, B_ = to_z3(new[a_]), to_z3(new[a_ + 1])
+                if not dim_eq(A_ * B_, t.shape[a_]):
+                    I.ex.oblige("view.sizes_agree", A_ * B_ == to_z3(t.shape[a_]))
+                e = t.elem
+                return ST(tuple(new), lambda *idx, a_=a_, B_=B_, e=e: e(*(list(idx[:a_]) + [to_z3(idx[a_]) * B_ + to_z3(idx[a_ + 1])] + list(idx[a_ + 2:]))), t.dtype)
     if len(nonunit_new) != len(nonunit_old):
         raise Unsupported("view that merges or splits symbolic dimensions")
     for (i, d), (i2, d2) in zip(nonunit_new, nonunit_old):
@@ -1249,6 +1258,19 @@ def f_zeros_like(I, t, **k):
     return ST.const(t.shape, False if dt == "bool" else 0, dt)
 
 
+def f_tensor(I, v, dtype=None, device=None, **k):
+    """torch.tensor(symbolic scalar): a 0-dim tensor holding it"""
+    if isinstance(v, ST):
+        return _to(I, v, dtype=dtype) if dtype is not None else v
+    if isinstance(v, (list, tuple)):
+        raise Unsupported("torch.tensor of a sequence with symbolic entries")
+    tag = ct.dtype_tag(dtype, "float" if (isinstance(v, float) or (is_z3(v) and z3.is_real(v))) else ("bool" if isinstance(v, bool) or (is_z3(v) and z3.is_bool(v)) else "long"))
+    val = v
+    if tag == "float" and is_z3(v) and z3.is_int(v):
+        val = z3.ToReal(v)
+    return ST((), lambda: val, tag)
+
+
 def f_as_tensor(I, t, *a, **k):
     return _to(I, t, *a, **{kk: v for kk, v in k.items() if kk == "dtype"})
 
@@ -1448,7 +1470,7 @@ def f_max(I, a, b=None, **k):
 
 
 METH["softmax"] = f_softmax
-FUNCS.update({"torch.nn.functional.one_hot": f_one_hot, "torch._C._nn.one_hot": f_one_hot, "torch.stack": f_stack, "torch.cat": f_cat, "torch.ones": f_ones, "torch.zeros": f_zeros, "torch.nn.functional.softmax": f_softmax, "torch.softmax": f_softmax, "torch.pow": f_pow, "torch.matmul": lambda I, a, b: _matmul(I, a, b), "torch.empty": f_empty, "torch.arange": f_arange, "torch.full": f_full, "torch.full_like": f_full_like, "torch.where": f_where, "torch.min": f_min, "torch.isfinite": f_isfinite, "torch.zeros_like": f_zeros_like, "torch.as_tensor": f_as_tensor, "torch.max": f_max})
+FUNCS.update({"torch.nn.functional.one_hot": f_one_hot, "torch._C._nn.one_hot": f_one_hot, "torch.stack": f_stack, "torch.cat": f_cat, "torch.ones": f_ones, "torch.zeros": f_zeros, "torch.nn.functional.softmax": f_softmax, "torch.softmax": f_softmax, "torch.pow": f_pow, "torch.matmul": lambda I, a, b: _matmul(I, a, b), "torch.empty": f_empty, "torch.arange": f_arange, "torch.full": f_full, "torch.full_like": f_full_like, "torch.where": f_where, "torch.min": f_min, "torch.isfinite": f_isfinite, "torch.zeros_like": f_zeros_like, "torch.as_tensor": f_as_tensor, "torch.max": f_max, "torch.tensor": f_tensor})
 
 
 def stubs():
